@@ -34,13 +34,17 @@ type CHOp struct {
 
 // CHCase is one case of scenario cachehist.
 type CHCase struct {
-	Prog  Program           `json:"prog"`
-	Disk  map[string]string `json:"disk"`
+	Prog Program           `json:"prog"`
+	Disk map[string]string `json:"disk"`
 	// Links: dependency files that are symbolic links (path -> target path, both relative to the project root);
 	// the content a task depends on is the content of the target
 	Links map[string]string `json:"links,omitempty"`
-	Ops   []CHOp            `json:"ops"`
-	Sched Sched             `json:"sched"`
+	// FixedMtime: every dependency file always carries the same modification time (and the content pool has
+	// equal sizes), as after `cp -p`, `touch -r`, a restore from backup or on a coarse-clocked file system:
+	// size and mtime do not identify content
+	FixedMtime bool   `json:"fixed_mtime,omitempty"`
+	Ops        []CHOp `json:"ops"`
+	Sched      Sched  `json:"sched"`
 }
 
 type cachehist struct{}
@@ -206,6 +210,7 @@ func (cachehist) Gen(r *Rng, cfg GenConfig) any {
 			c.Prog.Tasks[ti].Deps = dedupDeps(append(c.Prog.Tasks[ti].Deps, Dep{"file", ln[0]}))
 		}
 	}
+	c.FixedMtime = r.Chance(1, 4)
 	hasClean := false
 	if (cfg.Prop == "C09" && r.Chance(1, 3)) || (cfg.Prop != "nowriters" && r.Chance(1, 12)) {
 		// the last task (nothing depends on it) becomes the user's clean task
@@ -423,15 +428,16 @@ type jsonResult struct {
 
 // projState is the model + disk bookkeeping shared by the L2 scenarios.
 type projState struct {
-	w        *World
-	prog     *Program
-	disk     map[string]string  // model copy of the project files it wrote
-	ctl      map[string]int     // "T_i" -> exit status (0 = ok)
-	last     map[string]*string // T -> canonical inputs of its last success
-	lastFail map[string]bool    // T -> its most recent execution failed
-	logLen   int
-	inv      int
-	links    map[string]string // dependency files that are symbolic links: path -> target path (project relative)
+	w          *World
+	prog       *Program
+	disk       map[string]string  // model copy of the project files it wrote
+	ctl        map[string]int     // "T_i" -> exit status (0 = ok)
+	last       map[string]*string // T -> canonical inputs of its last success
+	lastFail   map[string]bool    // T -> its most recent execution failed
+	logLen     int
+	inv        int
+	links      map[string]string // dependency files that are symbolic links: path -> target path (project relative)
+	fixedMtime bool
 }
 
 // withLinks adds the symbolic links to a model disk: a link has the content of its target and does
@@ -454,8 +460,12 @@ func (s *projState) withLinks(disk map[string]string) map[string]string {
 	return out
 }
 
+// fixedMtimeNext makes the next newProjState create its files with the fixed modification time.
+var fixedMtimeNext bool
+
 func newProjState(w *World, p *Program, disk map[string]string) *projState {
-	s := &projState{w: w, prog: p, disk: map[string]string{}, ctl: map[string]int{}, last: map[string]*string{}, lastFail: map[string]bool{}}
+	s := &projState{w: w, prog: p, disk: map[string]string{}, ctl: map[string]int{}, last: map[string]*string{}, lastFail: map[string]bool{}, fixedMtime: fixedMtimeNext}
+	fixedMtimeNext = false
 	must(os.MkdirAll(filepath.Join(w.Proj, "src", "sub"), 0o755))
 	writeFile(filepath.Join(w.Proj, "spokfile"), p.Render())
 	for _, rel := range sortedKeys(disk) {
@@ -471,7 +481,11 @@ func newProjState(w *World, p *Program, disk map[string]string) *projState {
 
 func (s *projState) write(rel, content string) {
 	s.disk[rel] = content
-	writeFile(filepath.Join(s.w.Proj, filepath.FromSlash(rel)), content)
+	full := filepath.Join(s.w.Proj, filepath.FromSlash(rel))
+	writeFile(full, content)
+	if s.fixedMtime {
+		must(os.Chtimes(full, hsEpoch, hsEpoch))
+	}
 }
 
 func (s *projState) delete(rel string) {
@@ -667,7 +681,11 @@ func (cachehist) Exec(w *World, cc any, prop string) *Result {
 		res.count("skipped_ill_formed_case")
 		return res
 	}
+	fixedMtimeNext = c.FixedMtime
 	s := newProjState(w, &c.Prog, c.Disk)
+	if c.FixedMtime {
+		res.count("fault_present:fixed_modification_times")
+	}
 	for _, l := range sortedKeys(c.Links) {
 		full := filepath.Join(w.Proj, filepath.FromSlash(l))
 		target, err := filepath.Rel(filepath.Dir(full), filepath.Join(w.Proj, filepath.FromSlash(c.Links[l])))
@@ -1074,6 +1092,9 @@ func (cachehist) Shrinks(cc any) []any {
 	}
 	if len(c.Links) > 0 {
 		add(func(n *CHCase) { n.Links = nil })
+	}
+	if c.FixedMtime {
+		add(func(n *CHCase) { n.FixedMtime = false })
 	}
 	return out
 }
